@@ -341,7 +341,17 @@ class Index:
             raise AnalysisError(f"anchor vanished: class {name} in {path}")
         return mod.classes[name]
 
-    def get_function(self, path, qualname):
+    def get_function(self, path, qualname, inline=False, keep=()):
+        """inline=True: the routine in its normal form - calls of inlinable private helpers replaced
+        by their bodies (astutil.inlined) - so that structural rules are insensitive to helper
+        extraction."""
+        if inline:
+            from .astutil import inlined
+            key = (path, qualname, tuple(sorted(keep)))
+            cache = self.__dict__.setdefault("_inlined", {})
+            if key not in cache:
+                cache[key] = inlined(self, self.get_function(path, qualname), keep=keep)
+            return cache[key]
         mod = self.by_path.get(path)
         if mod is None:
             raise AnalysisError(f"anchor vanished: module {path}")
